@@ -343,6 +343,7 @@ type built struct {
 	Nested        bool
 	InnerAnnots   map[string]string // annotations of the inner index when the index is nested
 	InnerSize     int64
+	EntryImage    []int // per index entry: the image it names (-1 = attestation manifest)
 }
 
 type imgParts struct {
@@ -579,14 +580,30 @@ func build(c Case) *built {
 		if c.Index == "docker" {
 			idx.MediaType = mtDocList
 		}
-		for i, m := range b.Images {
+		order := c.EntryOrder
+		if order == nil {
+			order = intRange(len(c.Images))
+		}
+		seenImg := map[int]int{}
+		for _, i := range order {
+			if i < 0 || i >= len(c.Images) {
+				continue
+			}
+			m := b.Images[i]
 			p := platOf(c.Images[i].Arch)
 			d := jDesc{MediaType: m.ManifestMT, Digest: m.Digest, Size: m.Size, Platform: &p}
+			if n := seenImg[i]; n > 0 {
+				// a further entry for the same image: another variant of the platform, own annotation
+				p.Variant = map[string]string{"amd64": "v2", "arm64": "v9", "arm": "v6", "ppc64le": "power8"}[p.Architecture] + strings.Repeat("x", n-1)
+				d.Annotations = map[string]string{"org.example.entry": fmt.Sprintf("dup-%d", n)}
+			}
+			seenImg[i]++
 			if c.ChildData {
 				d.Data = base64.StdEncoding.EncodeToString(recs[i].Body)
 			}
 			idx.Manifests = append(idx.Manifests, d)
 			b.ChildSize = append(b.ChildSize, m.Size)
+			b.EntryImage = append(b.EntryImage, i)
 		}
 		if c.Attest {
 			// buildkit-style attestation manifest attached to image 0 through descriptor annotations
@@ -606,6 +623,7 @@ func build(c Case) *built {
 				Annotations: map[string]string{"vnd.docker.reference.type": "attestation-manifest", "vnd.docker.reference.digest": b.Images[0].Digest},
 				Platform:    &jPlatform{Architecture: "unknown", OS: "unknown"}})
 			b.ChildSize = append(b.ChildSize, int64(len(body)))
+			b.EntryImage = append(b.EntryImage, -1)
 			b.Images = append(b.Images, imgModel{Family: "oci", ManifestMT: mtOCIManifest, ConfigMT: mtOCIConfig, Plat: "unknown/unknown", IsAttest: true, Digest: ad,
 				Size: int64(len(body)), ConfigSize: int64(len(cfg)), Ports: map[string]bool{}, Volumes: map[string]bool{},
 				Layers: []layerModel{{MT: mtInToto, Comp: "none", Size: int64(len(stmt)), Digest: sd, DiffID: sd}}})
